@@ -171,14 +171,14 @@ def install(world):  # noqa: F811
 
     for name, kind, lwm, op in (("evo_aspirate", "Aspirate", "remove", "vol_minus"), ("evo_dispense", "Dispense", "add", "vol_plus")):
         register(world, Contract(
-            func=EW + name, serves=["C13", "C03"],
+            func=EW + name, serves=["C13", "C03", "C04"],
             scenarios=[wl_cmd(1), wl_cmd(2)],
             raises=[("ValueError", None), ("InvalidOperationError", None), ("KeyError", None), ("AssertionError", None),
                     ("VolumeUnderflowError", None), ("VolumeOverflowError", None)],
             ensures=[
                 ("command-appended", f"same(records(self), records(old_self) + comment_records(label) + [evo_cmd('{kind}', wells, labware_position, volumes, liquid_class, tips, arm, "
                                      "evo_sel_spec(length(labware.row_ids), length(labware.column_ids), wells))])", ["C13"]),
-                ("tracking-agrees", f"same(labware._volumes, {op}(old_labware._volumes, contrib(labware, wells, volumes)))", ["C13"]),
+                ("tracking-agrees", f"same(labware._volumes, {op}(old_labware._volumes, contrib(labware, wells, volumes)))", ["C13", "C04"]),
                 ("no-oversized-step", "forall(0, length(volumes), lambda i: volumes[i] <= self.max_volume)", ["C03", "C13"]),
             ],
             exc_ensures=[("no-command-on-abort", "is_prefix(records(self), records(old_self) + comment_records(label))", ["C13", "C03"])],
